@@ -41,8 +41,8 @@ RLess(p, q) == p[1] * q[2] < q[1] * p[2]        \* only for p, q # Err
 RECURSIVE RPowNat(_, _)
 RPowNat(p, n) == IF n = 0 THEN One ELSE RMul(p, RPowNat(p, n - 1))
 
-MaxExp == 4
-(* p ^ q: only integer exponents of magnitude <= MaxExp have an exact value here *)
+MaxExp == 12
+(* p ^ q: only integer exponents of magnitude <= MaxExp have an exact value here (every multiplication is window-checked) *)
 RPow(p, q) ==
     IF p = Err \/ q = Err THEN Err
     ELSE IF q[2] # 1 \/ IAbs(q[1]) > MaxExp THEN Err
